@@ -208,4 +208,26 @@ theorem mergedNames_mem (arrs : List SArr) (n : String) :
   have := h []
   simpa [mergedNames] using this
 
+/-! ## non-vacuity and regression witnesses -/
+
+/-- a 2×2 image of ones at (0,0) and a 2×2 image at (1,1) holding a NaN -/
+def exA : Arr := { off := [0, 0], shape := [2, 2], get := fun _ => some 1 }
+def exB : Arr := { off := [1, 1], shape := [2, 2], get := fun i => if i = [1, 0] then none else some 2 }
+
+/-- the hypotheses of `bbox_exact` / `translation_invariant` are satisfiable by a non-trivial input -/
+example : [exA, exB] ≠ [] ∧ (∀ a ∈ [exA, exB], a.off.length = 2) ∧ ([5, -7] : List Int).length = 2 := by
+  simp [exA, exB]
+
+/-- on that input the three kinds of pixel all occur: two contributions, a NaN-only pixel, an uncovered pixel -/
+example : contribs [exA, exB] [1, 1] = [1, 2] ∧ contribs [exA, exB] [2, 1] = [] ∧ exB.at [2, 1] = some none
+    ∧ exA.at [0, 2] = none ∧ exB.at [0, 2] = none := by decide +kernel
+
+/-- the mechanism before the repair is wrong: with a finite fill it adds the fill into the sum
+(11 instead of 1 where only the first image contributes), and a pixel covered only by a NaN becomes
+0 instead of the fill -/
+theorem old_mechanism_wrong :
+    mechOld .sum (some 10) [exA, exB] [0, 0] = some 11 ∧ spec .sum (some 10) [exA, exB] [0, 0] = some 1 ∧
+    mechOld .sum none [exA, exB] [2, 1] = some 0 ∧ spec .sum none [exA, exB] [2, 1] = none := by
+  decide +kernel
+
 end Pew.Overlap
